@@ -30,7 +30,18 @@ func letterOfPod(p *corev1.Pod) string {
 	if len(p.Spec.Containers) == 0 {
 		return "?"
 	}
-	return letterOfImage(p.Spec.Containers[0].Image) + spellingOf(&p.Spec.Containers[0])
+	return letterOfImage(p.Spec.Containers[0].Image) + spellingOf(&p.Spec.Containers[0]) + checksumOf(p.Annotations)
+}
+
+const checksumAnnotation = "checksum/config"
+
+// checksumOf: the variant of a template that differs from its twin only in the pod metadata (a
+// config checksum annotation) is template X^.
+func checksumOf(anns map[string]string) string {
+	if anns[checksumAnnotation] != "" {
+		return "^"
+	}
+	return ""
 }
 
 // spellingOf: templates that differ only in how a quantity is written ("128Mi" / "134217728") are
@@ -47,7 +58,7 @@ func letterOfTpl(t *corev1.PodTemplateSpec) string {
 	if len(t.Spec.Containers) == 0 {
 		return "?"
 	}
-	return letterOfImage(t.Spec.Containers[0].Image) + spellingOf(&t.Spec.Containers[0])
+	return letterOfImage(t.Spec.Containers[0].Image) + spellingOf(&t.Spec.Containers[0]) + checksumOf(t.Annotations)
 }
 
 // podNode is the node a pod is bound or pinned to.
